@@ -514,6 +514,16 @@ def _run_micro(world: World, plan):
 
     listener = Listener()
 
+    # an application that attaches its state listener to every transfer it is told about (TransferAddedEvent): what the
+    # library reports while it loads the cache is seen as well
+    from aioslsk.events import TransferAddedEvent
+
+    def on_added(event):
+        if listener not in event.transfer.state_listeners:
+            event.transfer.state_listeners.append(listener)
+    world.keep_alive.append(on_added)
+    alice.client.events.register(TransferAddedEvent, on_added)
+
     # ------------------------------------------------------------------ dummy tasks
     async def dummy(kind, honour):
         try:
@@ -661,7 +671,8 @@ def _run_micro(world: World, plan):
         if call.outcome() != 'returned' or len(manager.transfers) != 1:
             raise RuntimeError(f"restart step failed: {call.outcome()} {call.exception!r}")
         new = manager.transfers[0]
-        new.state_listeners.append(listener)
+        if listener not in new.state_listeners:
+            new.state_listeners.append(listener)
         ctx['transfer'] = new
         events.append(('restart', None, old.state.VALUE.name, new.state.VALUE.name, next_seq()))
         world.trace('restart', old.state.VALUE.name, new.state.VALUE.name)
@@ -679,7 +690,8 @@ def _run_micro(world: World, plan):
             tr.bytes_transfered = have
         added = await manager.add(tr)
         assert added is tr
-        tr.state_listeners.append(listener)
+        if listener not in tr.state_listeners:
+            tr.state_listeners.append(listener)
         ctx['transfer'] = tr
         for i, name in enumerate(plan.get('route', [])):
             await route_step(i, name, ctx['transfer'])
